@@ -25,6 +25,11 @@ type verifServerHooks struct {
 	// ForceCurveTLS12 makes a TLS 1.0-1.2 server run ECDHE on this curve whatever the client's
 	// supported_groups say (the server behaves as if the client had listed exactly this curve).
 	ForceCurveTLS12 CurveID
+	// ClientEncryptedExtensions, when set, makes the TLS 1.3 server expect one client
+	// EncryptedExtensions message (ALPS answer) right after its own Finished: the message is
+	// read through the transcript (so the client Finished is checked over it) and its raw
+	// bytes are handed to the callback.
+	ClientEncryptedExtensions func(raw []byte)
 }
 
 // VerifServerHooks is the exported name of the hook set.
